@@ -5,5 +5,5 @@ cd "$(dirname "$0")"
 export GOFLAGS=-mod=mod GOPROXY=off GOSUMDB=off GOTOOLCHAIN=local
 mkdir -p harness/bin .cache replays evidence
 (cd harness && cat /repo/go.sum /repo/example/go.sum | sort -u > go.sum && go build -tags verif -o bin/extract ./cmd/extract && go build -tags verif -o bin/corr ./cmd/corr)
-./harness/bin/extract -repo /repo -out /verif/lean/Csproto/Generated >/dev/null
+./harness/bin/extract -repo "${VERIF_REPO:-/repo}" -out "$PWD/lean/Csproto/Generated" >/dev/null
 (cd lean && lake build 2>&1 | tail -3)
